@@ -6,8 +6,29 @@ ALL = ["C%02d" % i for i in range(1, 20)]
 
 # id -> (technique, level text, level note, design section)
 CHECKS = {
- "C19": ("reference-model monitor: exact integer orientation oracle over exhaustive lattice + biased random kernels calls",
-         "Every Raycast / IntersectsSegment (both operand orders) / ContainsSegment / ContainsPoint / CollinearPoint / Rect call made by the workload is judged by an independent exact-integer oracle; the small lattice is enumerated completely under six affine re-encodings, the 2^20 lattice is sampled with degeneracy-biased generators. Held-on-what-was-observed, not a proof.",
+ "C01": ("reference-model monitor: exact crossing-parity oracle over exhaustive small rings x half-lattice points x index configurations, plus random and corpus shapes, geometry and object level",
+         "Every contains-point/intersects-point answer the workload produces (geometry level under no index / R-tree / quadtree, object level through Point, SimplePoint and Feature wrappers in both operand orders) is compared with exact planar membership computed in integers. Small lattices are enumerated completely; larger shapes are sampled. Held on what was observed.",
+         "Trusted: internal/exact.Locate (half-open crossing rule), float exactness on the stated coordinate domain.", "6 C01"),
+ "C04": ("reference-model monitor: brute-force segment search oracle + oracle-free cross-index comparison of predicates and moved shapes",
+         "Every Search call is compared, as a multiset of (index, segment) callbacks, with a brute-force scan of the index-free series using the harness' own box test; early stop is checked at four stop positions; sizes cross every item-width and node-split boundary up to 70000 points; predicates and Move()d shapes are compared across index configurations.",
+         "Trusted: NumSegments/SegmentAt of the index-free series (checked separately by C18); index bytes are never decoded.", "6 C04"),
+ "C06": ("round-trip monitor: Parse/JSON/Parse fixpoint + differential comparison of the output with an independent reading of the input",
+         "Each accepted grammar-generated text is serialised, reparsed and reserialised (byte equality, same Go kind, equal predicate answers against 14 probes) and the output is decoded by the reference reader and compared with the reference reading of the input: type, x/y bit for bit, z/m, child order, ordered foreign members, properties on Features. Known finding F10 (Circle objects) is matched narrowly.",
+         "Trusted: encoding/json token stream and strconv.ParseFloat as the reference decoder.", "6 C06"),
+ "C07": ("differential monitor: library Parse versus an independent reference GeoJSON reader over grammar documents, per-defect structural mutants and byte-level corruptions",
+         "Every text is classified by the reference reader strictly by the wording of the property; well-formed texts must be accepted and decode to the same type/nesting/order/x,y, texts with a listed defect must be rejected with an error and no object, anything else is counted as unclassified and not asserted. Known finding F11 is matched narrowly.",
+         "Trusted: internal/refjson (encoding/json based).", "6 C07"),
+ "C11": ("reference-model monitor: direct min/max, range and emptiness computation over a harness-side object model, constructors and Parse paths",
+         "Rect, Center, Valid and Empty of every object and nested object of generated trees (all kinds, special float values, empties, single-child collections, exhaustive short sequences) are compared with values computed directly from the model's positions. Known findings F20/F21 are matched by narrow predicates.",
+         "Trusted: the harness' own model tree (props/model.go).", "6 C11"),
+ "C17": ("output monitor: JSON validity, structural decoding, append contract with aliasing sentinels over objects from every constructor and special floats",
+         "Every object and nested object built through all public constructors (NaN/Inf/-0/extreme ordinates, hostile member strings) and through Parse is serialised four ways; outputs must agree, AppendJSON must append without touching the prefix (checked with spare capacity and an aliasing slice), the bytes must be valid JSON of the right type and nesting depth, ordinates must round-trip bit-exactly and non-finite ones must be null.",
+         "Trusted: encoding/json as JSON validator/decoder.", "6 C17"),
+ "C18": ("reference-model monitor: turn-sign and shoelace oracle over exhaustive vertex sequences and all rotations/closures",
+         "Convex, Clockwise, NumSegments/SegmentAt, Empty, NumPoints/PointAt of closed and open series are compared with direct integer definitions for every vertex sequence up to length 5 on the 4x4 lattice (more in thorough) and for random rings at every rotation and both closures.",
+         "Trusted: integer orientation predicate; where consecutive duplicate vertices make 'turn' ambiguous either reading is accepted (counted separately).", "6 C18"),
+ "C19": ("reference-model monitor: exact integer orientation oracle over exhaustive lattice + biased random kernel calls",
+         "Every Raycast / IntersectsSegment (both operand orders) / ContainsSegment / ContainsPoint / CollinearPoint / Rect call made by the workload is judged by an independent exact-integer oracle; the small lattice is enumerated completely under six affine re-encodings, the 2^20 lattice is sampled with degeneracy-biased generators.",
          "Trusted: internal/exact int64 predicates (cross-checked against a big.Rat implementation), exactness of float arithmetic on the stated coordinate domain.", "6 C19"),
 }
 PENDING = {}
